@@ -196,6 +196,7 @@ def run(cx):
     r3_sentinel(cx)
     r4_order(cx)
     r5_ops(cx)
+    r5_top_level(cx)
     cx.floor("C10.R2", 20)
     cx.floor("C10.R3", 2)
     cx.floor("C10.R5", 8)
@@ -643,3 +644,53 @@ def mem_doc_keys(m, c):
             if k:
                 keys.add(k)
     return keys, f
+
+
+def r5_top_level(cx):
+    """a Query is the AND of its groups (that is what the memory back end computes: Query::calc intersects the group results):
+    the SQLite filter is `ALL(group1, group2, ..)` - every group is ADDED to a condition created by `Condition::all()`. Folding
+    the groups into the first one makes `(a OR b) AND c` run as `a OR b OR c` when the first group is an OR group."""
+    m = cx.m
+    pa = Prov(m, "alias")
+    f = m.one(r"^acts_store_sqlite::collection::into_query$")
+    fs = [f] + [g for q, g in m.fns.items() if q.startswith(f.q + "::{closure")]
+
+    def bases(g, r, depth=0, seen=None):
+        """the calls a condition value starts from, following `.add(..)` receivers, moves and loop-carried locals"""
+        seen = seen if seen is not None else set()
+        if depth > 12:
+            return {"?"}
+        if r[0] == "call":
+            if re.search(r"Condition::add(::<.*>)?$|Iterator(>)?::fold(::<.*>)?$", r[1]):
+                c = Call(g, r[2])
+                # fold(init, f): the accumulator starts from init
+                a = c.args[1] if "fold" in r[1] and len(c.args) > 1 else c.args[0]
+                return bases(g, pa.root(g, a), depth + 1, seen)
+            return {short_name(r[1])}
+        if r[0] == "local":
+            if r[1] in seen:
+                return set()
+            seen.add(r[1])
+            out = set()
+            for d in g.defs().get(r[1], []):
+                if d[2] == "call":
+                    out |= bases(g, ("call", d[3][1].get("q") or "", d[0], ()), depth + 1, seen)
+                elif d[2] == "assign" and d[3][0] == "use" and d[3][1][0] != "k":
+                    out |= bases(g, pa.root(g, d[3][1]), depth + 1, seen)
+                else:
+                    out.add("?")
+            return out
+        return {root_str(r)}
+
+    rets = set()
+    for bi, b in enumerate(f.blocks):
+        for s_ in b["s"]:
+            if s_[0] == "A" and s_[1][0] == 0 and not s_[1][1] and s_[2][0] == "use" and s_[2][1][0] != "k":
+                rets |= bases(f, pa.root(f, s_[2][1]))
+        t = b["t"]
+        if t[0] == "call" and t[3][0] == 0 and not t[3][1]:
+            rets |= bases(f, ("call", t[1].get("q") or "", bi, ()))
+    ok = bool(rets) and all(re.search(r"Condition::all$", x) for x in rets)
+    cx.ob("C10.R5", "sqlite:groups-under-all", ok,
+          "into_query returns a condition that starts as `Condition::all()` on every path: the groups of a query are ANDed (found bases %s)%s" % (
+              sorted(rets), "" if ok else " - a filter that starts from a group itself joins the later groups with THAT group's connective"), f.loc())
